@@ -57,6 +57,7 @@ struct Sched {
 	bool fair_tail = false;                        // round robin instead of choices
 	int rr = 0;
 	unsigned run_length = 0;
+	uint64_t grace_progress = ~0ull; unsigned grace_rounds = 0; int grace_rr = 0;    // see pick_next_locked
 };
 inline Sched &S() { static Sched s; return s; }
 inline thread_local int tid = -1;
@@ -71,6 +72,21 @@ inline void pick_next_locked(int me) {
 	auto enabled = [&](int k) { return s.st[k] == St::runnable || (s.st[k] == St::spinning && s.progress > s.spin_epoch[k]); };
 	if(me >= 0 && enabled(me)) en.push_back(me);
 	for(int k = 0; k < s.nthreads; k++) if(k != me && enabled(k)) en.push_back(k);
+	if(en.empty()) {
+		// Nobody is enabled: every live thread is blocked on a mutex or sits in a spin loop that saw no step of another thread since
+		// it last paused. A spin loop need not be "check, pause, check, pause": it may pause several times in a row (back-off) or
+		// pause before its first check. Before the verdict, the spinners are therefore let run again, round after round; only when
+		// that many rounds pass without a single operation taking effect is the state final.
+		bool any_spinner = false; for(int k = 0; k < s.nthreads; k++) if(s.st[k] == St::spinning) any_spinner = true;
+		if(any_spinner) {
+			if(s.grace_progress != s.progress) { s.grace_progress = s.progress; s.grace_rounds = 0; }
+			if(++s.grace_rounds <= 4000) {
+				// one spinner per round, round robin (no choice point: the tape does not steer this, and a thread whose turn has not
+				// come cannot starve the one that would get out of its loop)
+				for(int d = 1; d <= s.nthreads; d++) { int k = (s.grace_rr + d) % s.nthreads; if(s.st[k] == St::spinning) { en.push_back(k); s.grace_rr = k; break; } }
+			}
+		}
+	}
 	if(en.empty()) {
 		bool all_done = true; for(auto x : s.st) if(x != St::done) all_done = false;
 		if(!all_done) { s.verdict = "deadlock"; s.abort = true;
@@ -218,7 +234,7 @@ inline Result run(std::vector<std::function<void()>> bodies, std::function<uint3
 		std::unique_lock<std::mutex> lk(s.bm);
 		s.nthreads = (int)bodies.size();
 		s.st.assign(s.nthreads, St::runnable); s.blocked_on.assign(s.nthreads, nullptr); s.spin_epoch.assign(s.nthreads, 0); s.after_spin.assign(s.nthreads, false); s.op_pending.assign(s.nthreads, false);
-		s.progress = s.steps = s.switches = 0; s.abort = false; s.verdict.clear(); s.choose = choose; s.trace_sizes.clear(); s.fair_tail = false; s.rr = 0; s.run_length = 0; s.max_steps = max_steps;
+		s.progress = s.steps = s.switches = 0; s.abort = false; s.verdict.clear(); s.choose = choose; s.trace_sizes.clear(); s.fair_tail = false; s.rr = 0; s.run_length = 0; s.grace_progress = ~0ull; s.grace_rounds = 0; s.grace_rr = 0; s.max_steps = max_steps;
 		s.current = -1; s.active = true;
 		vclock::fork_all(s.nthreads);
 	}
